@@ -94,11 +94,11 @@ def _on_alarm(signum, frame):
 @contextmanager
 def cpu_guard(seconds: float):
     """Per-case CPU budget (ITIMER_VIRTUAL, load independent).  After 5 overruns in one process the budget of
-    later cases shrinks to 2 s: a tree on which many cases never return would otherwise burn the full budget per
+    later cases shrinks to 5 s: a tree on which many cases never return would otherwise burn the full budget per
     case and run the shard into its wall-clock limit, losing the witnesses already collected."""
     global OVERRUNS
     if OVERRUNS >= 5:
-        seconds = min(seconds, 2.0)
+        seconds = min(seconds, 5.0)
     old = signal.signal(signal.SIGVTALRM, _on_alarm)
     # repeating: if the exception is swallowed by a C caller (sqlite/lupa callback) it is raised again
     signal.setitimer(signal.ITIMER_VIRTUAL, seconds, 0.25)
